@@ -1,7 +1,7 @@
 """C12 - declared shapes and dtypes match actual behaviour; bad inputs are rejected.
 
-Part 1: integer shape calculus (`slice_length`, `indexed_shape`, the `Slice` operator).
-(Part 2 - operator metadata through the OpAlg engine - is added by harness/opalg.py.)
+Part 1: integer shape calculus (`slice_length`, `indexed_shape`, the `Slice` operator, collapse rules).
+Part 2: declared metadata of derived operators through the OpAlg engine (harness/opalg_*.py).
 """
 
 from __future__ import annotations
@@ -14,8 +14,8 @@ import common
 from common import ModelErr
 
 PROP = "C12"
-CLAIMED = True
-ENGINE = "Shape"
+CLAIMED = False
+ENGINE = "OpAlg"
 DESIGN_REF = "DESIGN.md §5.1"
 TECHNIQUE = "Lean 4 proof (induction/omega over the integer slice calculus) + exhaustive small-scope correspondence with the code"
 LEVEL_TEXT = (
@@ -28,9 +28,10 @@ LEVEL_NOTE = (
     "(model checked against them on every case); correspondence is exhaustive only for n<=5..7, |bounds|<=7..9, |step|<=3."
 )
 PROP_MODULES = ["Scico.Props.C12"]
-EXTRA_TARGETS = ["Drv.Shape"]
+EXTRA_TARGETS = ["Drv.Shape", "Drv.OpAlg"]
 DRIVER = "Shape"
-FILES = ["scico/numpy/util.py", "scico/linop/_func.py", "scico/operator/_operator.py", "scico/linop/_linop.py"]
+FILES = ["scico/numpy/util.py", "scico/linop/_func.py", "scico/operator/_operator.py", "scico/linop/_linop.py",
+         "scico/linop/_diag.py", "scico/linop/_matrix.py", "scico/operator/_stack.py"]
 RULE = (
     "slices: every (n, start, stop, step) with n<=N, start/stop in [-B,B] or None, step in [-3,3] or None "
     "(step 0 = malformed stream); a case is non-trivial when the slice selects >=1 position and is not the "
@@ -120,6 +121,7 @@ def correspond(ctx, model):
         ctx.disagree("shape.slice_length", *bad[i], oracle=oracle)
     ctx.count("slice_length disagreements", len(bad))
     # malformed stream: zero step
+    _part2(ctx)
     for n in range(0, 4):
         sl = slice(None, None, 0)
         try:
@@ -134,8 +136,141 @@ def correspond(ctx, model):
             ctx.disagree("shape.slice_length.reject", {"n": n, "start": None, "stop": None, "step": 0}, list(impl), m)
 
 
+def _part2(ctx):
+    """operator metadata: declared shapes / dtypes / matrix_shape of derived operators against the
+    OpAlg model (exact) and against what evaluation returns; non-conforming inputs are rejected"""
+    import opalg_gen as G
+    import opalg_trees as T
+
+    env = G.Env()
+    orc = G.oracle(env)
+    om = common.Model("OpAlg")
+    try:
+        n = ctx.n(160, 1500)
+        dmax = ctx.n(4, 7)
+        bad = 0
+        # every class x {neg, T, H, conj, gram, scalar kinds} first (finite), then random trees
+        table = [c for c in T.pair_table(ctx.rng) if c[1]["t"] in ("neg", "T", "H", "conj", "gram")]
+        cases = [(nm, e) for nm, e in table]
+        for i in range(n):
+            dt_of = T.dtype_regime(ctx.rng)
+            insh = T.shape(ctx.rng)
+            outsh = insh if ctx.rng.random() < 0.5 else T.shape(ctx.rng)
+            cases.append((f"tree{i}", T.tree(ctx.rng, int(ctx.rng.integers(2, dmax + 1)), insh, outsh, dt_of, p_bad=0.03)))
+        for name, e in cases:
+            impl = env.observe(e, [], None)
+            key = ("meta", G.skeleton(e))
+            if impl[0] == "err":
+                mod = G.model_observe(om, e, [], [])
+                ctx.case({"name": name, "rejected": impl[1]}, None)
+                ctx.count("opalg:rejected:" + impl[1])
+                if mod[0] != "err" or mod[1] != impl[1]:
+                    ctx.disagree("opalg.meta:rejection", {"e": e, "name": name}, list(impl[:2]), list(mod[:2]), oracle=orc)
+                    bad += 1
+                continue
+            info = impl[1]
+            m_, n_ = info["matrix_shape"]
+            xs = [T.vals(ctx.rng, (n_,), G.is_cplx(info["in_dtype"])).astype(np.complex128)]
+            ys = [T.vals(ctx.rng, (m_,), G.is_cplx(info["out_dtype"])).astype(np.complex128)]
+            impl = env.observe(e, xs, ys)
+            info, o = impl[1], impl[2]
+            # probes: wrong input shape, wrong adjoint dtype, wrong adjoint shape
+            bad_in = info["in_shape"] + [1] if not G.is_nested(info["in_shape"]) else info["in_shape"] + [[1]]
+            bad_out = info["out_shape"] + [1] if not G.is_nested(info["out_shape"]) else info["out_shape"] + [[1]]
+            bad_dt = "complex64" if info["out_dtype"] != "complex64" else "float32"
+            mod = ("ok", om.call("expr", e=e, xs=[G.encs(x) for x in xs], ys=[G.encs(y) for y in ys],
+                                 probe_xsh=bad_in, probe_ysh=info["out_shape"], probe_ydt=bad_dt)) if True else None
+            mod[1]["eval"] = [G.decs(v) for v in mod[1]["eval"]]
+            mod[1]["adj"] = [G.decs(v) for v in mod[1]["adj"]]
+            diffs = [d for d in G.compare(impl, mod, e, check_adj=False, check_vals=False)]
+            ctx.case({"name": name, "skeleton": G.skeleton(e)[:200]}, key if G.nodes(e) > 1 else None, sample_every=300)
+            ctx.count("opalg:class=" + info["cls"])
+            ctx.count("opalg:dtype=" + info["in_dtype"] + ">" + info["out_dtype"])
+            ctx.count("opalg:nested" if G.is_nested(info["in_shape"]) or G.is_nested(info["out_shape"]) else "opalg:plain")
+            kid = None
+            if not diffs:
+                # non-conforming inputs
+                def probe(f):
+                    try:
+                        f()
+                        return "ok"
+                    except Exception as ex:  # noqa: BLE001
+                        return "err:" + common.err_kind(ex)
+
+                got_call = probe(lambda: o(env.to_array(np.zeros(G.size(bad_in)), bad_in, info["in_dtype"])))
+                want_call = mod[1]["call_arr"]
+                if got_call != want_call:
+                    diffs.append(("call(nonconforming shape)", got_call, want_call))
+                if hasattr(o, "adj"):
+                    got_adj = probe(lambda: o.adj(env.to_array(np.zeros(m_), info["out_shape"], bad_dt)))
+                    want_adj = mod[1]["adj_arr"]
+                    if got_adj.startswith("err") != str(want_adj).startswith("err") or (got_adj.startswith("err") and got_adj != want_adj):
+                        diffs.append(("adj(wrong dtype)", got_adj, want_adj))
+                        if info["cls"] == "MatrixOperator" and got_adj == "ok":
+                            kid = "matrix-adj-no-checks"
+                    got_adj2 = probe(lambda: o.adj(env.to_array(np.zeros(G.size(bad_out)), bad_out, info["out_dtype"])))
+                    if not got_adj2.startswith("err"):
+                        diffs.append(("adj(nonconforming shape)", got_adj2, "err:shape"))
+                        if info["cls"] == "MatrixOperator":
+                            kid = "matrix-adj-no-checks"
+            elif diffs[0][0] == "adj_dt" and str(diffs[0][2]) == "err:dtype" and '"t": "mat"' in __import__("json").dumps(e):
+                kid = "matrix-adj-no-checks"
+            if diffs:
+                d = diffs[0]
+                ctx.disagree("opalg.meta:" + d[0], {"e": e, "name": name}, str(d[1])[:300], str(d[2])[:300], oracle=orc, known_id=kid)
+                if kid is None or not ctx.is_known(kid):
+                    bad += 1
+            else:
+                # the property itself on the implementation: declared versus observed
+                r = orc({"e": e})
+                if r:
+                    decl_only = {k: v for k, v in r.items() if k in ("shape", "dtype", "matrix_shape", "evaluation_raised")}
+                    if decl_only:
+                        ctx.disagree("opalg.meta:declared-vs-observed", {"e": e, "name": name}, decl_only, "declared = observed", oracle=orc,
+                                     known_id=_classify_decl(e, decl_only, mod[1]))
+                        if not (_classify_decl(e, decl_only, mod[1]) and ctx.is_known(_classify_decl(e, decl_only, mod[1]))):
+                            bad += 1
+            if bad >= 10:
+                break
+    finally:
+        om.close()
+
+
+def _classify_decl(e, r, mod):
+    """`adj-dtype-check-mixed`: the only failure is that evaluation raises the dtype error of
+    LinearOperator.adj, the model predicts exactly that raise, and the tree mixes real and complex
+    dtypes / scalars (a complex-scaled real operator inside .T/.H/gram_op)."""
+    import opalg_gen as G
+
+    if set(r) == {"evaluation_raised"} and "Dtype error" in r["evaluation_raised"]["error"] \
+            and mod.get("eval_dt") == "err:dtype" and not G.kind_uniform(e) and G.uses_adjoint(e):
+        return "adj-dtype-check-mixed"
+    return None
+
+
 def findings(ctx, model):
-    pass
+    scico = common.setup_scico()
+    import jax.numpy as jnp
+    from scico import linop
+
+    A = linop.MatrixOperator(jnp.arange(6, dtype=np.float64).reshape(2, 3))
+    still = False
+    try:
+        y = A.adj(jnp.ones((2, 4), dtype=np.float64))
+        still = tuple(y.shape) == (3, 4)
+    except Exception:  # noqa: BLE001
+        still = False
+    ctx.known_finding("matrix-adj-no-checks", still)
+    # (2j * A).T for a real A: its evaluation calls A.adj on a complex array
+    G_ = linop.LinearOperator(input_shape=(2,), output_shape=(2,), eval_fn=lambda x: 2.0 * x, adj_fn=lambda y: 2.0 * y,
+                              input_dtype=np.float64, output_dtype=np.float64)
+    B = (2j * G_).T
+    try:
+        B(jnp.ones((2,), dtype=B.input_dtype))
+        still2 = False
+    except ValueError as ex:
+        still2 = "Dtype error" in str(ex)
+    ctx.known_finding("adj-dtype-check-mixed", still2)
 
 
 def replay(ctx, model, case):
